@@ -948,6 +948,12 @@ func closureTargets(v ssa.Value, depth int, seen map[ssa.Value]bool) []*ssa.Func
 		switch c := x.X.(type) {
 		case *ssa.Alloc:
 			cellStores(c)
+		case *ssa.Global:
+			// a package-level function variable (`var leftOf side = (*T).Method`): what the repo stores into it
+			vals, _ := globalStoredValues(c)
+			for _, sv := range vals {
+				add(closureTargets(sv, depth+1, seen))
+			}
 		case *ssa.FreeVar:
 			g := c.Parent()
 			if g == nil || g.Parent() == nil {
